@@ -20,13 +20,13 @@ KINDS9 = ["sphere", "ellipsoid", "capsule", "cylinder", "cone", "box", "disk", "
 RULE = ("one case = one collider (9 types implementing update_pose, 25% wrapped in Margin) and a history of 1-10 poses "
         "(rotation classes haar/axis/perm/ident/tiny/product, translations up to 100) handed over as (a) a fresh C-contiguous "
         "array, (b) one matrix of a C-contiguous (n,4,4) stack, (c) the array returned by pytransform3d "
-        "TransformManager.get_transform; after every update the object is compared with a freshly constructed collider at "
+        "TransformManager.get_transform, (d) one persistent pose buffer overwritten in place and handed over again; after every update the object is compared with a freshly constructed collider at "
         "that pose: 6 support queries (hostile directions), aabb, center, first_vertex, collider2origin, and "
         "gjk.gjk / gjk_intersection / mpr_intersection against a fixed probe collider; queries are interleaved so that caches "
         "(box vertices, mesh start vertex) are warm. non-trivial = history length >= 2; distinct = distinct (spec, poses) hashes")
 ASSUMPTIONS = ["'same shape constructed directly at the pose': centre = pose[:3,3]; Disk normal = pose[:3,2]; Ellipse axes = pose[:3,:2].T",
                "support points of meshes are compared through their projection on the direction (ties)"]
-MIN_EVENTS = {"updates": 3000, "observable_comparisons": 40000, "stack_poses": 500, "tm_poses": 300}
+MIN_EVENTS = {"updates": 3000, "observable_comparisons": 40000, "stack_poses": 500, "tm_poses": 300, "inplace_poses": 500}
 
 
 def cases(tier):
@@ -62,14 +62,22 @@ def run_case(rng, idx, tier):
     stack = np.ascontiguousarray(np.array(poses))
     name = O.name(spec)
     tm = None
+    buf = None
     hist = []
     for i in range(n):
-        how = str(rng.choice(["fresh", "stack", "tm"], p=[.4, .4, .2]))
+        how = str(rng.choice(["fresh", "stack", "tm", "inplace"], p=[.3, .3, .15, .25]))
         try:
             if how == "fresh":
                 T = np.array(poses[i], dtype=float, order="C"); ev["fresh_poses"] += 1
             elif how == "stack":
                 T = stack[i]; ev["stack_poses"] += 1
+            elif how == "inplace":
+                # one pose buffer that the caller overwrites in place for every time step and hands over again
+                if buf is None:
+                    buf = np.zeros((2, 4, 4)); buf[:] = np.eye(4)
+                    col.update_pose(buf[1]); ev["updates"] += 1
+                buf[1][:] = poses[i]
+                T = buf[1]; ev["inplace_poses"] = ev.get("inplace_poses", 0) + 1
             else:
                 if tm is None:
                     from pytransform3d.transform_manager import TransformManager
